@@ -109,6 +109,16 @@ def to_json(schema, h, ty, v):
         return to_json(schema, h, inner, v.fields[0])
     if wrap in ("Vec", "Array"):
         return [to_json(schema, h, inner, x) for x in v.elems]
+    if wrap == "Box":
+        while isinstance(v, Struct) and v.ty in ("Box", "BoxInline"):
+            if v.ty == "BoxInline":
+                v = v.fields[0]
+            else:
+                p_ = v.fields[0]
+                while isinstance(p_, Struct):
+                    p_ = p_.fields[0]
+                v = h.eng.load_ptr(h._cur_st, p_)
+        return to_json(schema, h, inner, v)
     if wrap == "HashMap":
         from mir import split_top
         kt, vt = split_top(inner)
@@ -255,6 +265,7 @@ def validate_case(case, mir, schema, native, n, seed, models=None):
                 retv = o.val if o.kind == "ret" else None
                 if kind != "ok":
                     break
+            h._cur_st = st
             post = to_json(schema, h, case.recv_ty, h.deref(st, p)) if p is not None else None
             retj = plain(h, st, retv)
             rty = getattr(case, "ret_ty", None)
